@@ -152,8 +152,11 @@ class Result:
         else:
             self.extra["disagreements_dropped"] = self.extra.get("disagreements_dropped", 0) + 1
 
-    def violate(self, signature, what, replay, limit=50):
-        if len(self.violations) < limit:
+    def violate(self, signature, what, replay, per_signature=3, limit=400):
+        """keep a few examples per signature so that a frequent (e.g. known) signature cannot crowd out a new one"""
+        self.extra.setdefault("violation_counts", {})
+        self.extra["violation_counts"][signature] = self.extra["violation_counts"].get(signature, 0) + 1
+        if self.extra["violation_counts"][signature] <= per_signature and len(self.violations) < limit:
             self.violations.append({"signature": signature, "what": what, "replay": replay})
 
 
